@@ -1,4 +1,5 @@
 """C13 - linear ticks are round, evenly spaced, complete, in-domain, uniquely labelled."""
+import itertools
 import math
 from fractions import Fraction
 
@@ -14,6 +15,7 @@ RULE = ("E-INPUT: every ordered pair of end points from {0, +-m x 10^e : m in 11
 ASSUMPTIONS = ["float tolerances: 1e-6 of a step for gap equality/multiples/completeness, 1e-9 step for in-domain, 1e-3 step for read-back"]
 REQUIRED_COUNTERS = ("tick_sets", "reversed_domains", "step_1", "step_2", "step_5", "history_sequences")
 EPS = 2.220446049250313e-16
+TICK_CAP = 10000
 
 
 def bounds(tier, seed):
@@ -26,7 +28,9 @@ def judge(a, b, m, acc=None, scale=None):
     try:
         with horizon(10.0):
             s = LinearScale().domain([a, b]) if scale is None else scale
-            tk = [float(t) for t in s.ticks(m)]
+            tk = [float(t) for t in itertools.islice(s.ticks(m), TICK_CAP + 1)]
+            if len(tk) > TICK_CAP:
+                return "C13:unbounded", "ticks(%r) on [%r, %r] yields more than %d ticks" % (m, a, b, TICK_CAP)
             fmt = s.tickFormat(m)
             texts = [fmt(t) for t in tk]
     except Hang:
@@ -112,17 +116,17 @@ def run_history(a, b, kind, m, m2):
     from labella.scale import LinearScale
     if kind == "ticks-nice-ticks":
         s = LinearScale().domain([a, b])
-        list(s.ticks(m))
+        list(itertools.islice(s.ticks(m), TICK_CAP))
         s.nice(m2) if m2 is not None else s.nice()
         return [s]
     if kind == "ticks-domain-ticks":
         s = LinearScale().domain([b * 3 + 1, a - 7])
-        list(s.ticks(m))
+        list(itertools.islice(s.ticks(m), TICK_CAP))
         s.tickFormat(m)
         s.domain([a, b])
         return [s]
     s = LinearScale().domain([a, b])
-    list(s.ticks(m))
+    list(itertools.islice(s.ticks(m), TICK_CAP))
     c = s.copy()
     s.nice()
     return [s, c]
